@@ -2099,7 +2099,7 @@ impl Sim for SesSim {
         let stub = vec!["client + cookie jar".to_string(), "FaultyStore wrapper (forwards / fails the k-th call / stalls = crash)".to_string(), "wall clock (clock_gettime seam, ticks on every read, seeded jumps incl. backwards)".to_string(), "OS entropy (getrandom seam)".to_string()];
         if p == "C12" {
             SimMeta {
-                rule: "Each run draws a cookie-processor configuration {no rule, signing, encryption} x {rule names the session cookie, names another cookie} x fallback key x percent-encoding, a session cookie configuration (name, Domain, Path, SameSite, Secure, HttpOnly, kind, TTL), a session-state configuration and 1-8 requests of 0-10 session operations each (same generator as C11, incl. stale-cookie replay, store faults, crashes, abandoned requests). Invariants are monitored in every request: cookie attached only if signed/encrypted, encrypted whenever client state is non-empty (also checked on the wire), no cookie on Err, exact attributes, id never in Debug output. Non-trivial: >= 2 requests. Distinct: distinct (operation shape, configuration) hash.".into(),
+                rule: "Each run draws a cookie-processor configuration {no rule, signing, encryption} x {rule names the session cookie, names another cookie} x fallback key x percent-encoding, a session cookie configuration (name, Domain, Path, SameSite, Secure, HttpOnly, kind, TTL), a session-state configuration and 1-8 requests of 0-10 session operations each (same generator as C11, incl. stale-cookie replay, store faults, crashes, abandoned requests). Invariants are monitored in every request: cookie attached only if signed/encrypted, encrypted whenever client state is non-empty (also checked on the wire), no cookie on Err, exact attributes, id never in Debug output; a removal cookie attached on the ground of will_sign/will_encrypt is not empty on the wire; one run in 150 is a MAX-AGE scenario (persistent cookie, configured TTL at the edge of what a Duration holds, returning client that leaves the server state alone: Max-Age is the TTL clamped to what it can express). Non-trivial: >= 2 requests. Distinct: distinct (operation shape, configuration) hash.".into(),
                 real: common_real,
                 stub,
                 assumptions: vec!["the crypto/cookie configuration dimension is plain seeded enumeration; the history and fault dimensions are the simulation".into()],
@@ -2108,7 +2108,7 @@ impl Sim for SesSim {
             }
         } else {
             SimMeta {
-                rule: "Each run draws one SessionConfig from the cross product (server_state_creation, missing_server_state, extend_ttl, threshold in {None,0,0.5,0.8,1}, cookie kind, TTL) and 2-8 requests. Each request presents the latest cookie, an OLDER one (replay), none or garbage, advances the clock by a seeded step (arms: strict = total time < TTL; expiry = steps aimed at the deadlines incl. backward jumps; fault = the k-th store call fails or never returns, or the request is abandoned; one run in four also has a request with 2-3 server-side reads in flight AT ONCE on its one session — seeded store latencies, seeded poll order, clock steps between polls, and in the fault arm a stale `None` answer to one of the loads) and performs 0-10 operations from {server get/insert/remove/clear/is_empty/force_load, client get/insert/remove/clear/is_empty, delete, cycle_id, invalidate, explicit sync, observe-all} with unique values, then finalize_session. Every return value is compared with the reference model; after each request the cookie is decoded and (when fully determined) the store is cross-checked. Non-trivial: >= 2 requests. Distinct: distinct operation-shape hash.".into(),
+                rule: "Each run draws one SessionConfig from the cross product (server_state_creation, missing_server_state, extend_ttl, threshold in {None,0,0.5,0.8,1}, cookie kind, TTL) and 2-8 requests. Each request presents the latest cookie, an OLDER one (replay), none or garbage, advances the clock by a seeded step (arms: strict = total time < TTL; expiry = steps aimed at the deadlines incl. backward jumps; fault = the k-th store call fails or never returns, or the request is abandoned; one run in four also has a request with 2-3 server-side reads in flight AT ONCE on its one session — seeded store latencies, seeded poll order, clock steps between polls, and in the fault arm a stale `None` answer to one of the loads) and performs 0-10 operations from {server get/insert/remove/clear/is_empty/force_load, client get/insert/remove/clear/is_empty, delete, cycle_id, invalidate, explicit sync, observe-all} with unique values, then finalize_session. Every return value is compared with the reference model; after each request the cookie is decoded and (when fully determined) the store is cross-checked. One request in six carries other cookies next to the session cookie (same Cookie line, other header lines, unparsable ones on other lines). One run in twelve is an OVERLAP scenario instead of a sequence: after a set-up request two requests present the same cookie and are in flight at once (every store call is a scheduling point, a scripted bit string picks the request that moves next); checked there: every value read was written for that key, and a request that had loaded the record before another one invalidated / renamed the session does not leave non-empty state under the old id. Non-trivial: >= 2 requests. Distinct: distinct operation-shape hash.".into(),
                 real: common_real,
                 stub,
                 assumptions: vec![
